@@ -5,7 +5,7 @@
 EXTENDS Container, Json
 CONSTANT KindSet          \* the kinds to enumerate in this run
 VARIABLE c
-GInit == \E kind \in KindSet : \E n \in Counts(kind), p \in 1 .. 4, method \in Methods(kind), name \in Names(kind),
+GInit == \E kind \in KindSet : \E n \in Counts(kind), p \in 1 .. Len(PayloadClasses), method \in Methods(kind), name \in Names(kind),
                                   opt \in Options(kind), region \in RegionsOf(kind), pos \in PosClasses, target \in 1 .. 3 :
             /\ c = Scenario(kind, n, p, method, name, opt, region, pos, target)
             /\ ValidScenario(c)
